@@ -79,6 +79,10 @@ func rlRun(in []byte) (interface{}, error) {
 				if rnd.Intn(2) == 0 {
 					body = append(body, bytes.Repeat([]byte(" ababab"), 10)...)
 					body = append(body, []byte(" -- redis.call redis.call r")...) // a back reference one byte longer than its distance
+					if rnd.Intn(2) == 0 {
+						// a phrase that comes back several hundred bytes later: back references at distances beyond 255 (two offset bytes)
+						body = append(body, farRepeat(rnd, 280+rnd.Intn(1500))...)
+					}
 					scripts = append(scripts, body)
 					w.AuxStr([]byte("lua"), body, rdbref.StrLZF)
 				} else {
@@ -221,6 +225,11 @@ func rlRun(in []byte) (interface{}, error) {
 							nm = append(nm, words[rnd.Intn(len(words))]...)
 						}
 						k.key = append(nm, []byte(fmt.Sprint("#", op.V))...)
+					case 2:
+						if rnd.Intn(2) == 0 {
+							// a long name whose opening phrase returns beyond 255 bytes (a back reference with a two-byte offset)
+							k.key = append(farRepeat(rnd, 260+rnd.Intn(3000)), []byte(fmt.Sprint("#", op.V))...)
+						}
 					}
 					w.KeyStr(k.key, rdbref.StrLZF, rdbref.LenCanonical, k.typ, k.body)
 				default:
@@ -247,6 +256,7 @@ func rlRun(in []byte) (interface{}, error) {
 		nr := 0
 		footerOK := true
 		chunksOK := true
+		var held []heldRec
 		ab, pan := runAbortable(func() {
 			l := rdb.NewLoader(bytes.NewReader(file))
 			if err := l.Header(); err != nil {
@@ -254,6 +264,7 @@ func rlRun(in []byte) (interface{}, error) {
 				return
 			}
 			si := 0
+			held = held[:0]
 			var chunkBody []byte
 			part := 0
 			for {
@@ -266,6 +277,9 @@ func rlRun(in []byte) (interface{}, error) {
 					break
 				}
 				nr++
+				// every delivered record is KEPT until the end of the file, as the consumers of the loader do (a queue between the
+				// parser and the restore workers): what was delivered must not change afterwards
+				held = append(held, heldRec{e.Key, e.Value, rdbref.CRC64(0, e.Key), rdbref.CRC64(0, e.Value)})
 				ev := tracer.Ev{"e": "rec", "file": f.Id, "i": nr, "db": int(e.DB), "idle": int(e.IdleTime), "freq": int(e.Freq)}
 				ex := int64(0)
 				if e.ExpireAt != 0 {
@@ -339,11 +353,42 @@ func rlRun(in []byte) (interface{}, error) {
 			errMsg += " panic: " + pan
 		}
 		nrec += nr
-		tr.Emit(tracer.Ev{"e": "end", "file": f.Id, "records": nr, "err": errMsg != "" && footerOK, "errmsg": errMsg, "footer_ok": footerOK, "chunks_ok": chunksOK})
+		heldOK := true
+		for i, h := range held {
+			if rdbref.CRC64(0, h.key) != h.keyCrc || rdbref.CRC64(0, h.val) != h.valCrc {
+				heldOK = false
+				if errMsg == "" {
+					errMsg = fmt.Sprintf("record %d (key %.40q) changed after it had been delivered", i+1, h.key)
+				}
+			}
+		}
+		held = nil
+		tr.Emit(tracer.Ev{"e": "end", "file": f.Id, "records": nr, "err": errMsg != "" && footerOK && heldOK, "errmsg": errMsg, "footer_ok": footerOK, "chunks_ok": chunksOK, "held_ok": heldOK})
 	}
 	return map[string]interface{}{"files": len(cfg.Files), "records": nrec, "events": tr.Count(), "types": typesSeen}, nil
 }
 
 var doneKeys = map[string]bool{}
+
+type heldRec struct {
+	key, val       []byte
+	keyCrc, valCrc uint64
+}
+
+// farRepeat: a 14-byte phrase, `gap` bytes that compress badly, the phrase again, a tail.
+func farRepeat(rnd *rand.Rand, gap int) []byte {
+	letters := func(n int) []byte {
+		b := make([]byte, n)
+		for i := range b {
+			b[i] = byte('a' + rnd.Intn(26))
+		}
+		return b
+	}
+	phrase := append([]byte("PHRASE:"), letters(7)...)
+	out := append([]byte{}, phrase...)
+	out = append(out, letters(gap)...)
+	out = append(out, phrase...)
+	return append(out, letters(5)...)
+}
 
 func init() { register("rdbload", rlRun) }
